@@ -6,12 +6,13 @@ import (
 )
 
 // R-OPTS-PROP: the DiscardUnknown option reaches nested decoders.
-//  (1) impl.unmarshalOptions.Options() builds proto.UnmarshalOptions with
-//      DiscardUnknown: o.DiscardUnknown();
-//  (2) unmarshalOptions.DiscardUnknown tests flags against UnmarshalDiscardUnknown;
-//  (3) proto.UnmarshalOptions.unmarshal sets in.Flags |= UnmarshalDiscardUnknown
-//      under `o.DiscardUnknown`;
-//  (4) every UnmarshalState call in internal/impl is made on opts.Options().
+//
+//	(1) impl.unmarshalOptions.Options() builds proto.UnmarshalOptions with
+//	    DiscardUnknown: o.DiscardUnknown();
+//	(2) unmarshalOptions.DiscardUnknown tests flags against UnmarshalDiscardUnknown;
+//	(3) proto.UnmarshalOptions.unmarshal sets in.Flags |= UnmarshalDiscardUnknown
+//	    under `o.DiscardUnknown`;
+//	(4) every UnmarshalState call in internal/impl is made on opts.Options().
 func (c *Ctx) ruleOptsProp(rule string) {
 	R, P := c.R, c.P
 	R.Rule(rule, "DiscardUnknown propagates: Options() copies it from the flags, the flag test uses UnmarshalDiscardUnknown, proto.unmarshal sets the flag under o.DiscardUnknown, and every nested UnmarshalState in internal/impl is invoked on opts.Options()", 6)
